@@ -369,6 +369,13 @@ func (s *Server) newSocket(
 		socket.close(ReasonTransportError, err)
 		return nil
 	}
+
+	// The server might have been closed while this handshake was in progress,
+	// after it has taken its snapshot of the sockets to close.
+	if s.IsClosed() {
+		socket.Close()
+		return nil
+	}
 	return socket
 }
 
